@@ -227,6 +227,16 @@ class DiskImageContentInjector(DiskImageWorker):
         image = imageManager.image
         self._prepareControllers(image)
 
+        for src in args.sources:
+            # writing the archive would destroy a source that is the archive itself
+            cleanSrc = src[:-2] if src[-2:].upper() == ",A" else src
+            if (
+                os.path.basename(src.upper()) != "--EOS"
+                and os.path.exists(cleanSrc)
+                and os.path.abspath(cleanSrc) == os.path.abspath(args.archive)
+            ):
+                raise ValueError(f"source.is.the.archive:{cleanSrc}")
+
         listener.onBeginOfSide(self._currentSide)
         for src in args.sources:
             dotPos = src.rfind(".", src.rfind("/") + 1)
